@@ -71,7 +71,7 @@ ICOK(e, s, c) ==
         c.ics[i].name \in Names(s.vars) =>
             LET o == ObsOf(e, c.ics[i].name)
             IN /\ o.icv
-               /\ (Ints(e, o) /\ Len(o.vals) >= 1) => o.vals[1] = c.ics[i].val
+               /\ (Ints(e, o) /\ Len(o.vals) >= 1) => o.vals[1] = ICVal(c, c.ics[i].name)
 
 LagOK(e, s) ==
     \A i \in LagIdx(s.vars) :
